@@ -39,7 +39,23 @@ def run_case(engine, case, cap_s):
         return {'status': 'discard', 'violations': [], 'why': str(e)}
     except RunTimeout:
         return {'status': 'timeout', 'violations': []}
-    except Exception:
+    except Exception as ex:
+        # an exception that escaped from library code (innermost frames under /repo/fggs) while the engine was driving a
+        # well-formed workload is the library's answer, not a harness problem: report it as a violation of the property
+        # being checked; anything raised by harness/oracle code stays a harness error (exit 2)
+        tb = traceback.extract_tb(ex.__traceback__)
+        from simfggs.core import REPO
+        lib = os.path.realpath(REPO) + os.sep + 'fggs' + os.sep
+        inner = [f for f in tb if not ('/torch/' in f.filename or '/torch_semiring_einsum/' in f.filename)]
+        if inner and os.path.realpath(inner[-1].filename).startswith(lib) and not isinstance(ex, (MemoryError, KeyboardInterrupt)):
+            fr = inner[-1]
+            caller = next((f for f in reversed(tb) if '/simfggs/engines/' in f.filename), None)
+            sig = [case.get('prop', '?'), 'library-exception', type(ex).__name__, fr.name]
+            return {'status': 'violation', 'violations': [{'property': case.get('prop', '?'), 'clause': 'library-exception',
+                                                            'features': sig[2:], 'signature': sig,
+                                                            'detail': f'{type(ex).__name__}: {str(ex)[:300]} raised in {os.path.basename(fr.filename)}:{fr.name} '
+                                                                      f'(called from {caller.name if caller else "?"})'}],
+                    'digest': None, 'counters': {}, 'steps': 0, 'shape': None}
         return {'status': 'harness-error', 'violations': [], 'trace': traceback.format_exc()[-3000:]}
     finally:
         signal.setitimer(signal.ITIMER_REAL, 0)
